@@ -14,6 +14,7 @@ import (
 	"bytes"
 	"encoding/binary"
 	"encoding/json"
+	"hash/crc32"
 	"fmt"
 	"io"
 	"math"
@@ -57,6 +58,8 @@ type vfE2Msg struct {
 	id   MessageID
 	att  uint16
 	size int
+	ts   int64
+	crc  uint32
 }
 
 type vfE2Conn struct {
@@ -141,6 +144,9 @@ type vfE2H struct {
 	epoch     int
 	depth     int
 	last      []string
+	buf  [][2]string     // op/impl lines of the running episode (flushed at its end, timestamps resolved)
+	tsOf map[int]int64    // the publish timestamp nsqd gave each message (first observation)
+	pubT map[int][2]int64 // wall-clock bracket of the publish call
 	relax     bool         // a steered schedule holds an operation between two critical sections: heap/map oracle off
 	micro     bool         // a micro-step schedule ran in this episode: the atomic invariant is not expected
 	guardGate atomic.Value // func(): called at proto.pump.afterGuard
@@ -176,8 +182,50 @@ func (h *vfE2H) fail(key, format string, a ...interface{}) {
 
 func (h *vfE2H) count(k string) { h.hist[k]++ }
 
+var vfE2TsRe = regexp.MustCompile(`@T(\d+)`)
+
+// flush writes the episode's lines; the `@T<seq>` placeholders of publish lines become the
+// timestamp nsqd stamped on that message (known from its first observation; 0 if never seen)
+func (h *vfE2H) flush() {
+	for _, l := range h.buf {
+		op := vfE2TsRe.ReplaceAllStringFunc(l[0], func(m string) string {
+			seq, _ := strconv.Atoi(m[2:])
+			return strconv.FormatInt(h.tsOf[seq], 10)
+		})
+		h.out.Case(op, l[1])
+	}
+	h.buf = nil
+}
+
+func vfE2Crc(b []byte) uint32 { return crc32.ChecksumIEEE(b) }
+
+// sawEnvelope: the direct oracle of C07.4 on the implementation's own outputs — whenever a message
+// is seen (frame, in-flight map, deferred map) its id, timestamp and body are those of every
+// earlier sighting and of the publisher's record
+func (h *vfE2H) sawEnvelope(where string, seq int, id MessageID, ts int64, body []byte) {
+	if seq <= 0 {
+		return
+	}
+	if sz, ok := h.sizes[seq]; !ok || sz != len(body) || !bytes.Equal(body, vfE2Body(seq, sz)) {
+		h.fail("body", "%s: message %d carries a body that was never published", where, seq)
+	}
+	if old, ok := h.tsOf[seq]; ok && old != ts {
+		h.fail("envelope", "%s: message %d carries timestamp %d, it was seen with %d before", where, seq, ts, old)
+	} else if !ok {
+		h.tsOf[seq] = ts
+		if br, ok := h.pubT[seq]; ok && (ts < br[0] || ts > br[1]) {
+			h.fail("envelope", "%s: message %d carries timestamp %d outside its publish call [%d, %d]", where, seq, ts, br[0], br[1])
+		}
+	}
+	if old, ok := h.ids[seq]; ok && old != id {
+		h.fail("envelope", "%s: message %d carries id %s, it was seen with id %s before", where, seq, id[:], old[:])
+	} else if !ok {
+		h.ids[seq] = id
+	}
+}
+
 func (h *vfE2H) emit(op, impl string) {
-	h.out.Case(op, impl)
+	h.buf = append(h.buf, [2]string{op, impl})
 	h.last = append(h.last, op+" -> "+impl)
 	if len(h.last) > 14 {
 		h.last = h.last[1:]
@@ -203,6 +251,8 @@ func (h *vfE2H) start(cfg vfE2Cfg) {
 	h.ids = map[int]MessageID{}
 	h.sizes = map[int]int{}
 	h.topicOf = map[int]int{}
+	h.tsOf = map[int]int64{}
+	h.pubT = map[int][2]int64{}
 	h.nextK = 1
 	h.nextSeq = 1
 	h.aborted = false
@@ -271,6 +321,7 @@ func (h *vfE2H) start(cfg vfE2Cfg) {
 }
 
 func (h *vfE2H) stop() {
+	h.flush()
 	for _, cn := range h.conns {
 		if cn.nc != nil {
 			cn.nc.Close()
@@ -346,14 +397,9 @@ func (h *vfE2H) takeMsg(cn *vfE2Conn, data []byte) {
 		return
 	}
 	seq := vfE2SeqOf(m.Body)
-	if seq > 0 {
-		if sz, ok := h.sizes[seq]; !ok || sz != len(m.Body) || !bytes.Equal(m.Body, vfE2Body(seq, sz)) {
-			h.fail("body", "conn k%d: message %d arrived with a body that was never published", cn.k, seq)
-		}
-		h.ids[seq] = m.ID
-	}
+	h.sawEnvelope(fmt.Sprintf("frame to k%d", cn.k), seq, m.ID, m.Timestamp, m.Body)
 	cn.nMsg++
-	cn.newMsgs = append(cn.newMsgs, vfE2Msg{seq: seq, id: m.ID, att: m.Attempts, size: len(m.Body)})
+	cn.newMsgs = append(cn.newMsgs, vfE2Msg{seq: seq, id: m.ID, att: m.Attempts, size: len(m.Body), ts: m.Timestamp, crc: vfE2Crc(m.Body)})
 }
 
 // nextNonMsg returns the next response / error / close frame; message frames are queued.
@@ -527,11 +573,15 @@ type vfE2IF struct {
 	att  uint16
 	pri  int64
 	dts  int64
+	ts   int64
+	crc  uint32
 }
 type vfE2DF struct {
 	seq int
 	att uint16
 	pri int64
+	ts  int64
+	crc uint32
 }
 
 func (h *vfE2H) inflightOf(rc *Channel) []vfE2IF {
@@ -542,7 +592,9 @@ func (h *vfE2H) inflightOf(rc *Channel) []vfE2IF {
 		if !ok {
 			k = -1
 		}
-		out = append(out, vfE2IF{vfE2SeqOf(m.Body), k, m.Attempts, m.pri, m.deliveryTS.UnixNano()})
+		seq := vfE2SeqOf(m.Body)
+		h.sawEnvelope("in-flight map", seq, m.ID, m.Timestamp, m.Body)
+		out = append(out, vfE2IF{seq, k, m.Attempts, m.pri, m.deliveryTS.UnixNano(), m.Timestamp, vfE2Crc(m.Body)})
 	}
 	// heap oracle: every element knows its index, the heap holds exactly the map's objects,
 	// parents are not later than children
@@ -573,7 +625,9 @@ func (h *vfE2H) deferredOf(rc *Channel) []vfE2DF {
 	rc.deferredMutex.Lock()
 	for _, it := range rc.deferredMessages {
 		m := it.Value.(*Message)
-		out = append(out, vfE2DF{vfE2SeqOf(m.Body), m.Attempts, it.Priority})
+		seq := vfE2SeqOf(m.Body)
+		h.sawEnvelope("deferred map", seq, m.ID, m.Timestamp, m.Body)
+		out = append(out, vfE2DF{seq, m.Attempts, it.Priority, m.Timestamp, vfE2Crc(m.Body)})
 	}
 	if len(rc.deferredPQ) != len(rc.deferredMessages) {
 		h.fail("heap", "deferred heap has %d elements, map has %d", len(rc.deferredPQ), len(rc.deferredMessages))
@@ -620,10 +674,10 @@ func (h *vfE2H) dumpLine(ch *vfE2Chan) string {
 	}
 	var ifs, dfs, cls []string
 	for _, e := range h.inflightOf(rc) {
-		ifs = append(ifs, fmt.Sprintf("%d:%d:%d:%d:%d", e.seq, e.conn, e.att, e.pri, e.dts))
+		ifs = append(ifs, fmt.Sprintf("%d:%d:%d:%d:%d:%d:%d", e.seq, e.conn, e.att, e.pri, e.dts, e.ts, e.crc))
 	}
 	for _, e := range h.deferredOf(rc) {
-		dfs = append(dfs, fmt.Sprintf("%d:%d:%d", e.seq, e.att, e.pri))
+		dfs = append(dfs, fmt.Sprintf("%d:%d:%d:%d:%d", e.seq, e.att, e.pri, e.ts, e.crc))
 	}
 	for _, c := range h.clientsOf(rc) {
 		infl := atomic.LoadInt64(&c.InFlightCount)
@@ -1023,7 +1077,7 @@ func (h *vfE2H) observe() {
 				}
 				rc.inFlightMutex.Unlock()
 			}
-			h.emit(fmt.Sprintf("deliver %d %d %d", cn.k, m.seq, now), fmt.Sprintf("msg %d", m.att))
+			h.emit(fmt.Sprintf("deliver %d %d %d", cn.k, m.seq, now), fmt.Sprintf("msg %d %d %d", m.att, m.ts, m.crc))
 			h.count("obs:deliver")
 			if ch != nil {
 				h.oracleDeliver(cn, ch, m)
